@@ -89,7 +89,23 @@ unsafe fn table_remove(ptr: usize) -> Option<Entry> {
         }
         if t[i].ptr == ptr {
             let e = t[i];
-            t[i].ptr = TOMB;
+            // backward-shift deletion (no tombstones: probe chains stay as short as the live set makes them)
+            let mut hole = i;
+            let mut j = i;
+            loop {
+                j = (j + 1) % CAP;
+                if t[j].ptr == EMPTY {
+                    break;
+                }
+                let home = slot_of(t[j].ptr);
+                let stays = if hole <= j { hole < home && home <= j } else { hole < home || home <= j };
+                if stays {
+                    continue;
+                }
+                t[hole] = t[j];
+                hole = j;
+            }
+            t[hole].ptr = EMPTY;
             return Some(e);
         }
         i = (i + 1) % CAP;
@@ -230,6 +246,22 @@ unsafe impl GlobalAlloc for Auditor {
 #[global_allocator]
 static GLOBAL: Auditor = Auditor;
 
+unsafe fn table_get(ptr: usize) -> Option<Entry> {
+    let t = &*TABLE.entries.get();
+    let mut i = slot_of(ptr);
+    let mut probes = 0;
+    loop {
+        if t[i].ptr == EMPTY || probes > CAP {
+            return None;
+        }
+        if t[i].ptr == ptr {
+            return Some(t[i]);
+        }
+        i = (i + 1) % CAP;
+        probes += 1;
+    }
+}
+
 fn take_events() -> Vec<AuditEvent> {
     let n = EVENTS.len.swap(0, Ordering::Relaxed).min(MAX_EVENTS);
     let mut v = Vec::new();
@@ -278,10 +310,13 @@ pub const CALLS: &[Call] = &[
     Call::RequestCreate(0),
     Call::RequestCreate(1),
     Call::RequestCreate(2),
+    Call::RequestCreate(3),
     Call::RequestFromStr,
     Call::RequestJsonDeserialize,
     Call::ActionJsonDeserialize(0),
     Call::ActionJsonDeserialize(1),
+    Call::ActionJsonDeserialize(2),
+    Call::ActionJsonDeserialize(3),
     Call::BodyFilterCreate(0),
     Call::BodyFilterCreate(1),
     Call::BodyFilterCreate(2),
@@ -299,6 +334,7 @@ pub const CALLS: &[Call] = &[
     Call::HeaderFilterFilter(1),
     Call::HeaderFilterFilter(2),
     Call::HeaderFilterFilter(3),
+    Call::HeaderFilterFilter(4),
     Call::BodyFilterFilter,
     Call::BodyFilterFilterNull,
     Call::ShouldLogRequest,
@@ -317,6 +353,23 @@ pub const CALLS: &[Call] = &[
 ];
 
 fn action_json(kind: u8) -> String {
+    // built once (the documents are constants; building the large one costs more than everything the library does with it)
+    static DOCS: std::sync::OnceLock<Vec<String>> = std::sync::OnceLock::new();
+    DOCS.get_or_init(|| (0..4).map(build_action_json).collect())[kind as usize].clone()
+}
+
+fn build_action_json(kind: u8) -> String {
+    if kind == 3 {
+        // not an action document: both sides refuse it (the C surface logs the error and returns NULL)
+        return "{\"status_code_update\": 12, \"header_filters\": \"none\"".to_string();
+    }
+    if kind == 2 {
+        // what 400 matched rules with one small header filter each give: a document over 64 KiB made of short strings
+        let filters: Vec<Value> = (0..400)
+            .map(|i| json!({"filter": {"action": "add", "header": format!("X-H-{i}"), "value": format!("v{i}"), "id": null, "target_hash": null}, "on_response_status_codes": [], "exclude_response_status_codes": false, "rule_id": format!("r{i}")}))
+            .collect();
+        return json!({"status_code_update": null, "header_filters": filters, "body_filters": [], "rule_ids": ["r"], "rule_traces": [], "rules_applied": [], "log_override": null}).to_string();
+    }
     let body_filters = if kind == 0 {
         json!([{"filter": {"action": "append_child", "value": "<i>v</i>", "inner_value": null, "element_tree": ["html", "body"], "css_selector": null, "id": null, "target_hash": null},
                 "on_response_status_codes": [], "exclude_response_status_codes": false, "rule_id": "r"},
@@ -429,7 +482,10 @@ impl World {
         use Call::*;
         match c {
             RequestCreate(k) => {
-                let uri = OwnedC::new("/p?b=2&a=1&utm_source=x");
+                // k == 3: a URL longer than 64 KiB (one very long parameter value)
+                let long_uri = if k == 3 { format!("/p?b=2&a=1&utm_source=x&z={}", "z".repeat(70_000)) } else { String::new() };
+                let uri_text: &str = if k == 3 { &long_uri } else { "/p?b=2&a=1&utm_source=x" };
+                let uri = OwnedC::new(uri_text);
                 let host = OwnedC::new("h.example");
                 let scheme = OwnedC::new("https");
                 let method = OwnedC::new("POST");
@@ -446,7 +502,7 @@ impl World {
                     self.mismatch("request_create-null", "request_create returned NULL".into());
                 } else {
                     let r = &*self.request;
-                    if r.host.as_deref() != Some("h.example") || r.path_and_query_skipped.original != "/p?b=2&a=1&utm_source=x" || r.headers.len() != if k == 0 { 2 } else if k == 2 { 130 } else { 0 } {
+                    if r.host.as_deref() != Some("h.example") || r.path_and_query_skipped.original != uri_text || r.headers.len() != if k == 0 { 2 } else if k == 2 { 130 } else { 0 } {
                         self.mismatch("request_create-content", format!("{r:?}"));
                     }
                 }
@@ -482,8 +538,8 @@ impl World {
                 let s = OwnedC::new(&js);
                 self.action = redirectionio_action_json_deserialize(s.mut_ptr()) as *mut Action;
                 self.native_action = serde_json::from_str(&js).ok();
-                if self.action.is_null() {
-                    self.mismatch("action_json_deserialize-null", "valid action JSON gave NULL".into());
+                if self.action.is_null() != self.native_action.is_none() {
+                    self.mismatch("action_json_deserialize-differs-from-native", format!("document of {} bytes: C surface gives {}, native gives {}", js.len(), if self.action.is_null() { "NULL" } else { "an action" }, if self.native_action.is_none() { "an error" } else { "an action" }));
                 }
             }
             BodyFilterCreate(k) => {
@@ -571,6 +627,23 @@ impl World {
                 want.sort();
                 if got != want {
                     self.mismatch("header_filter_filter-differs-from-native", format!("list of 130 headers: {} entries back, native gives {}", got.len(), want.len()));
+                }
+            }
+            HeaderFilterFilter(4) => {
+                // header values of 65 535, 65 536 and 100 000 bytes (a long cookie, an inlined policy): the list round-trips
+                let values: Vec<String> = [65_535usize, 65_536, 100_000].iter().map(|n| "c".repeat(*n)).collect();
+                let entries: Vec<(Option<&str>, Option<&str>)> = vec![(Some("X-A"), Some("1")), (Some("Cookie"), Some(values[0].as_str())), (Some("X-Policy"), Some(values[1].as_str())), (Some("X-Big"), Some(values[2].as_str()))];
+                let h = OwnedHeaders::new(&entries);
+                let out = redirectionio_action_header_filter_filter(self.action, h.ptr(), 200, false);
+                let mut got: Vec<(String, String)> = if out == h.ptr() { entries.iter().map(|(n, v)| (n.unwrap().to_string(), v.unwrap().to_string())).collect() } else { take_header_list(out) };
+                let native_in: Vec<Header> = entries.iter().map(|(n, v)| Header { name: n.unwrap().to_string(), value: v.unwrap().to_string() }).collect();
+                let mut want: Vec<(String, String)> = self.native_action.as_mut().map(|a| a.filter_headers(native_in, 200, false, None)).unwrap_or_default().into_iter()
+                    .map(|h| (if h.name.contains('\0') { "<NULL>".to_string() } else { h.name }, if h.value.contains('\0') { "<NULL>".to_string() } else { h.value })).collect();
+                got.sort();
+                want.sort();
+                if got != want {
+                    let short = |v: &[(String, String)]| v.iter().map(|(n, x)| format!("{n}:{}B", x.len())).collect::<Vec<_>>();
+                    self.mismatch("header_filter_filter-differs-from-native", format!("list with values of 65535 / 65536 / 100000 bytes: {:?} vs {:?}", short(&got), short(&want)));
                 }
             }
             HeaderFilterFilter(2) => {
@@ -856,7 +929,21 @@ fn check_sequence(seq: &[Call]) -> (Vec<(String, String)>, Vec<String>) {
     let mut res = run_sequence(seq, true);
     // leak probe twice: the second delta is the steady-state one
     let _ = leak_probe(seq);
-    let (lc, lb) = leak_probe(seq);
+    let (mut lc, mut lb) = leak_probe(seq);
+    // a leak is what EVERY further execution adds to the live set: a one-off growth (a pool or a thread local that
+    // settles one run later) is not one, so a non-zero delta has to repeat in three more runs before it is reported
+    if lc != 0 || lb != 0 {
+        for _ in 0..3 {
+            let (c, b) = leak_probe(seq);
+            if c == 0 && b == 0 {
+                lc = 0;
+                lb = 0;
+                break;
+            }
+            lc = c;
+            lb = b;
+        }
+    }
     res.leak_count = lc;
     res.leak_bytes = lb;
     (signatures(seq, &warm, &res), res.keys)
@@ -869,7 +956,17 @@ fn enumerate(prefix: &mut Vec<Call>, world_enabled: &dyn Fn(&[Call]) -> Vec<Call
     if prefix.len() == max {
         return;
     }
+    // the calls with payloads over 64 KiB cost a hundred times the others: they are explored in every sequence one call
+    // shorter than the bound (every position, every neighbour), not in the longest ones
+    let heavy = |c: &Call| matches!(c, Call::RequestCreate(3) | Call::ActionJsonDeserialize(2) | Call::HeaderFilterFilter(4));
+    let has_heavy = prefix.iter().any(heavy);
+    if has_heavy && prefix.len() + 1 == max && max > 2 {
+        return;
+    }
     for c in world_enabled(prefix) {
+        if heavy(&c) && prefix.len() + 1 == max && max > 2 {
+            continue;
+        }
         prefix.push(c);
         enumerate(prefix, world_enabled, max, out);
         prefix.pop();
@@ -891,7 +988,7 @@ fn enabled_after(prefix: &[Call]) -> Vec<Call> {
     for c in prefix {
         match c {
             RequestCreate(_) | RequestFromStr | RequestJsonDeserialize => s.r = true,
-            ActionJsonDeserialize(k) => s.a = Some(*k),
+            ActionJsonDeserialize(k) => s.a = if *k == 3 { None } else { Some(*k) },
             // creation legitimately yields NULL when no filter applies (action without body filters, non-HTML / unsupported encoding)
             BodyFilterCreate(k) => s.f = (*k == 0 || *k == 2) && s.a == Some(0),
             TrustedProxiesCreate => s.t = true,
@@ -925,7 +1022,178 @@ fn enabled_after(prefix: &[Call]) -> Vec<Call> {
         .collect()
 }
 
+// ------------------------------------------------------------------------------------------------
+// callback-logger pass. The log callback installed with redirectionio_log_init_with_callback receives every message as a C
+// string that belongs to the receiver from then on (the proxy modules free() it, or queue it and write it later). The
+// logger is process-global and can be installed once, so the pass runs in a subprocess of its own: every call sequence up to
+// the pass's length is executed with the callback installed, in two receiver behaviours (keep every message until the
+// sequence is over, then read and release it / release it inside the callback), under the same allocator audit.
+
+const KEEP_MAX: usize = 256;
+static KEPT: [AtomicUsize; KEEP_MAX] = [const { AtomicUsize::new(0) }; KEEP_MAX];
+static KEPT_LEN: AtomicUsize = AtomicUsize::new(0);
+static FREE_IN_CALLBACK: AtomicBool = AtomicBool::new(false);
+static FREED_IN_CALLBACK: AtomicUsize = AtomicUsize::new(0);
+static LOG_DATA: u8 = 0;
+
+extern "C" fn receive_message(msg: *const std::os::raw::c_char, _data: *const std::os::raw::c_void, _level: std::os::raw::c_short) {
+    if FREE_IN_CALLBACK.load(Ordering::Relaxed) {
+        if !msg.is_null() {
+            FREED_IN_CALLBACK.fetch_add(1, Ordering::Relaxed);
+            drop(unsafe { std::ffi::CString::from_raw(msg as *mut std::os::raw::c_char) });
+        }
+        return;
+    }
+    let i = KEPT_LEN.fetch_add(1, Ordering::Relaxed);
+    if i < KEEP_MAX {
+        KEPT[i].store(msg as usize, Ordering::Relaxed);
+    }
+}
+
+/// one sequence with the callback logger installed: (signatures, messages received)
+fn logger_sequence(seq: &[Call], free_in_callback: bool) -> (Vec<(String, String)>, usize) {
+    let mut out: Vec<(String, String)> = Vec::new();
+    let mode = if free_in_callback { "receiver releases the message inside the callback" } else { "receiver keeps the message until the sequence is over" };
+    KEPT_LEN.store(0, Ordering::Relaxed);
+    FREED_IN_CALLBACK.store(0, Ordering::Relaxed);
+    FREE_IN_CALLBACK.store(free_in_callback, Ordering::Relaxed);
+    take_events();
+    quarantine_begin();
+    JUDGING.store(true, Ordering::Relaxed);
+    unsafe {
+        let mut w = World::new();
+        for c in seq {
+            if !w.enabled(*c) {
+                break;
+            }
+            w.exec(*c);
+        }
+        w.release_all();
+    }
+    let mut messages = FREED_IN_CALLBACK.load(Ordering::Relaxed);
+    let n = KEPT_LEN.load(Ordering::Relaxed).min(KEEP_MAX);
+    for i in 0..n {
+        let p = KEPT[i].load(Ordering::Relaxed);
+        if p == 0 {
+            continue;
+        }
+        lock();
+        let e = unsafe { table_get(p) };
+        unlock();
+        match e {
+            None => out.push(("log-message:released-by-the-library".to_string(), format!("message #{i} handed to the log callback is no longer a live allocation when its receiver comes to use it ({mode}); sequence {seq:?}"))),
+            Some(e) => {
+                messages += 1;
+                let text = unsafe { std::ffi::CStr::from_ptr(p as *const std::os::raw::c_char) };
+                if text.to_bytes().len() + 1 != e.size {
+                    out.push(("log-message:not-a-c-string-of-its-allocation".to_string(), format!("message #{i}: {} bytes before the terminator in an allocation of {} bytes; sequence {seq:?}", text.to_bytes().len(), e.size)));
+                }
+                drop(unsafe { std::ffi::CString::from_raw(p as *mut std::os::raw::c_char) });
+            }
+        }
+    }
+    JUDGING.store(false, Ordering::Relaxed);
+    quarantine_flush();
+    for e in take_events() {
+        let kind = match e.kind {
+            1 => "free-of-unknown-pointer",
+            2 => "dealloc-layout-mismatch",
+            3 => "realloc-of-unknown-pointer",
+            _ => "realloc-layout-mismatch",
+        };
+        out.push((format!("log-message:{kind}"), format!("allocator audit with the callback logger installed ({mode}): alloc size {} align {}, release size {} align {}; sequence {seq:?}", e.alloc_size, e.alloc_align, e.free_size, e.free_align)));
+    }
+    out.sort();
+    out.dedup_by(|a, b| a.0 == b.0);
+    (out, messages)
+}
+
+/// subprocess entry: `ffi_audit logger-pass <max-length | json sequence>`; prints one JSON line per violation and a final stats line
+fn logger_pass_main(arg: &str) -> ! {
+    // a runaway recursion in the logging path allocates without bound before the stack is exhausted: cap the address space
+    // of this subprocess (2 GiB) so that it dies quickly and alone
+    extern "C" {
+        fn setrlimit(resource: i32, rlim: *const [u64; 2]) -> i32;
+    }
+    unsafe {
+        setrlimit(9, &[2u64 << 30, 2u64 << 30]); // RLIMIT_AS
+    }
+    unsafe { redirectionio_log_init_with_callback(receive_message, &LOG_DATA as *const u8 as *const std::os::raw::c_void) };
+    let mut seqs: Vec<Vec<Call>> = Vec::new();
+    match arg.parse::<usize>() {
+        Ok(max) => enumerate(&mut Vec::new(), &enabled_after, max, &mut seqs),
+        Err(_) => seqs.push(serde_json::from_str(arg).expect("sequence")),
+    }
+    let mut total_messages = 0usize;
+    let mut with_messages = 0usize;
+    let mut seen: BTreeSet<String> = BTreeSet::new();
+    for (si, seq) in seqs.iter().enumerate() {
+        println!("LOGPASS-BEGIN {si}");
+        let mut any = false;
+        for free_in_callback in [false, true] {
+            let (viol, messages) = logger_sequence(seq, free_in_callback);
+            total_messages += messages;
+            any |= messages > 0;
+            for (sig, what) in viol {
+                if seen.insert(format!("{sig}{free_in_callback}")) || seqs.len() == 1 {
+                    println!("LOGPASS-VIOLATION {}", json!({"signature": sig, "what": what, "sequence": seq, "free_in_callback": free_in_callback}));
+                }
+            }
+        }
+        if any {
+            with_messages += 1;
+        }
+    }
+    println!("LOGPASS-STATS {}", json!({"sequences": seqs.len(), "executions": seqs.len() * 2, "messages_received": total_messages, "sequences_with_messages": with_messages}));
+    std::process::exit(0);
+}
+
+/// parent side: (violations as (signature, what, case), stats); Err = the subprocess did not finish properly
+fn run_logger_pass(arg: &str) -> Result<(Vec<(String, String, Value)>, Value), String> {
+    let exe = std::env::current_exe().map_err(|e| e.to_string())?;
+    let out = std::process::Command::new(exe).arg("logger-pass").arg(arg).output().map_err(|e| e.to_string())?;
+    let text = String::from_utf8_lossy(&out.stdout).to_string();
+    let mut viol = Vec::new();
+    let mut stats = Value::Null;
+    let mut last_begun: Option<usize> = None;
+    for line in text.lines() {
+        if let Some(rest) = line.strip_prefix("LOGPASS-BEGIN ") {
+            last_begun = rest.trim().parse().ok();
+        }
+        if let Some(rest) = line.strip_prefix("LOGPASS-VIOLATION ") {
+            if let Ok(v) = serde_json::from_str::<Value>(rest) {
+                viol.push((v["signature"].as_str().unwrap_or("").to_string(), v["what"].as_str().unwrap_or("").to_string(), json!({"logger_pass": {"sequence": v["sequence"], "free_in_callback": v["free_in_callback"]}})));
+            }
+        } else if let Some(rest) = line.strip_prefix("LOGPASS-STATS ") {
+            stats = serde_json::from_str(rest).unwrap_or(Value::Null);
+        }
+    }
+    if let (true, Some(si)) = (stats.is_null(), last_begun) {
+        // the subprocess died while it executed sequence #si: that is a result, not a failure of the machinery
+        let seq: Value = match arg.parse::<usize>() {
+            Ok(max) => {
+                let mut seqs = Vec::new();
+                enumerate(&mut Vec::new(), &enabled_after, max, &mut seqs);
+                json!(seqs.get(si))
+            }
+            Err(_) => serde_json::from_str(arg).unwrap_or(Value::Null),
+        };
+        viol.push(("log-message:process-died".to_string(), format!("with the callback logger installed the process died ({:?}; {}) while executing the sequence {seq}", out.status, String::from_utf8_lossy(&out.stderr).lines().filter(|l| !l.trim().is_empty()).take(2).collect::<Vec<_>>().join(" / ")), json!({"logger_pass": {"sequence": seq}})));
+        return Ok((viol, json!({"died_in_sequence": si})));
+    }
+    if stats.is_null() {
+        return Err(format!("logger pass ended with {:?} before its statistics line; stderr: {}", out.status, String::from_utf8_lossy(&out.stderr).chars().take(400).collect::<String>()));
+    }
+    Ok((viol, stats))
+}
+
 fn replay(case: &Value) -> Vec<String> {
+    if let Some(lp) = case.get("logger_pass") {
+        return match run_logger_pass(&lp["sequence"].to_string()) {
+            Ok((viol, _)) => viol.into_iter().map(|(s, _, _)| s).collect(),
+            Err(_) => vec![],
+        };
+    }
     let seq: Vec<Call> = match serde_json::from_value(case["sequence"].clone()) {
         Ok(s) => s,
         Err(_) => return vec![],
@@ -933,9 +1201,22 @@ fn replay(case: &Value) -> Vec<String> {
     check_sequence(&seq).0.into_iter().map(|(s, _)| s).collect()
 }
 
+extern "C" {
+    fn mallopt(param: i32, value: i32) -> i32;
+}
+
 fn main() {
+    // glibc: keep freed memory in the process (no heap trimming, no mmap per large block): the sequences with payloads over
+    // 64 KiB otherwise spend their time in brk / mmap / page faults
+    unsafe {
+        mallopt(-1, 1 << 30); // M_TRIM_THRESHOLD
+        mallopt(-3, 1 << 30); // M_MMAP_THRESHOLD
+    }
     let args: Vec<String> = std::env::args().collect();
     verif_mc::common::quiet_panics();
+    if args.len() >= 3 && args[1] == "logger-pass" {
+        logger_pass_main(&args[2]);
+    }
     if args.len() >= 3 && args[1] == "replay" {
         let text = std::fs::read_to_string(&args[2]).expect("read replay");
         let doc: Value = serde_json::from_str(&text).expect("parse replay");
@@ -1045,6 +1326,19 @@ fn main() {
         }
     }
     CURRENT.store(usize::MAX, Ordering::Relaxed);
+    // the callback-logger pass (own process: the logger is process-global)
+    let logger_stats = match run_logger_pass(&format!("{}", max - 1)) {
+        Ok((viol, stats)) => {
+            for (sig, what, case) in viol {
+                ctx.report(Violation { signature: sig, what, case, weight: 1 });
+            }
+            stats
+        }
+        Err(e) => {
+            println!("MACHINERY-ERROR: {e}");
+            std::process::exit(2);
+        }
+    };
     let mut cov = Coverage::new();
     cov.set("states", json!(states.len() + 1))
         .set("transitions", json!(transitions))
@@ -1055,6 +1349,7 @@ fn main() {
         .set("sequences_enumerated", json!(seqs.len()))
         .set("ill_typed_at_run_time_skipped", json!(skipped_ill_typed))
         .set("max_sequence_length", json!(max))
+        .set("callback_logger_pass", json!({"max_sequence_length": max - 1, "receiver_behaviours": ["keeps every message until the sequence is over, then reads and releases it", "releases the message inside the callback"], "result": logger_stats}))
         .set("call_alphabet", json!(CALLS.iter().map(|c| format!("{c:?}")).collect::<Vec<_>>()))
         .set("exhaustive", json!(true));
     cov.assume("single-threaded driver; the allocator audit sees every allocation of the process (harness included), so a free with a wrong layout anywhere is reported")
